@@ -873,42 +873,55 @@ Definition ok_resolve (gs : list gt_session) (tl : list (Z * list (Z * nat))) (t
   end.
 
 (* ------------------------------------------------------------------ record side: the dlopen() wrapper *)
-(* libmcount/wrap.c dlopen(): what one traced thread does, as a tree.  [ARec a] is a traced call
-   or return at address a (mcount_entry/mcount_exit read the clock and write a record);
-   [ADlopen base tab ctor] is a call of the wrapper: real_dlopen() maps the library at [base] and
-   runs its static initialisers [ctor] (ELF constructors, C++ global constructors - they may record
-   and may call dlopen again) before it returns; afterwards the wrapper sends the DLOP message
-   (time stamp, base, name) that ends up in task.txt.
-   [early = true] is the code as it is: the clock is read on entry of the wrapper, BEFORE
-   real_dlopen().  [early = false] reads it where the message is built, after real_dlopen().
+(* libmcount/wrap.c dlopen() + dlopen_base_callback(): what one traced thread does, as a tree.
+   [ARec a] is a traced call or return at address a (mcount_entry/mcount_exit read the clock and
+   write a record).  [ADlopen base tab deps ctor] is a call of the wrapper: real_dlopen() maps the
+   library at [base] together with its not yet mapped DT_NEEDED dependencies [deps] and runs their
+   static initialisers [ctor] (ELF constructors, C++ global constructors - they record and may call
+   dlopen again) before it returns; afterwards the wrapper sends the DLOP messages (time stamp,
+   base, name) that end up in task.txt.
+   [early = true]: the clock is read on entry of the wrapper, BEFORE real_dlopen() (the code;
+   generated flag wrap_dlopen_clock_first).  [early = false] reads it after real_dlopen().
+   [fixed = true] is the code since fix 0c4417a: every library the call mapped is reported
+   (generated flag wrap_dlopen_reports_all: no name filter in the callback) and all of them carry
+   the entry time of the OUTERMOST dlopen in progress in the thread ([outer]).  [fixed = false] is
+   the code as found: only the library named in the call is reported, with the call's own time.
+   (The fixed code sends the message of a still-loading outer library from the inner call; the
+   set of messages and their time stamps are the same as here, only their order differs.)
    Every clock read returns a later value than the previous one of the thread. *)
 Inductive act :=
 | ARec (a : Z)
-| ADlopen (base : Z) (tab : symtab) (ctor : list act).
+| ADlopen (base : Z) (tab : symtab) (deps : list (Z * symtab)) (ctor : list act).
 
 Definition rout := (Z * list (Z * Z) * list dlib)%type.      (* clock, records (time, addr), DLOP messages *)
 
-Fixpoint run_act (early : bool) (x : act) (clk : Z) : rout :=
+Definition dl_stamp (fixed : bool) (outer : option Z) (entry : Z) : Z :=
+  if fixed then match outer with Some t0 => t0 | None => entry end else entry.
+Definition dl_msgs (fixed : bool) (stamp base : Z) (tab : symtab) (deps : list (Z * symtab)) : list dlib :=
+  mkDl stamp base tab :: (if fixed then map (fun d => mkDl stamp (fst d) (snd d)) deps else []).
+
+Fixpoint run_act (early fixed : bool) (outer : option Z) (x : act) (clk : Z) : rout :=
   match x with
   | ARec a => (clk + 1, [(clk, a)], [])
-  | ADlopen base tab ctor =>
+  | ADlopen base tab deps ctor =>
+      let stamp := dl_stamp fixed outer clk in
       let run_l :=
         (fix go (l : list act) (c : Z) : rout :=
            match l with
            | [] => (c, [], [])
-           | y :: r => let '(c1, r1, d1) := run_act early y c in
+           | y :: r => let '(c1, r1, d1) := run_act early fixed (Some stamp) y c in
                        let '(c2, r2, d2) := go r c1 in (c2, r1 ++ r2, d1 ++ d2)
            end) in
       if early
-      then let '(c2, rs, ds) := run_l ctor (clk + 1) in (c2, rs, ds ++ [mkDl clk base tab])
-      else let '(c2, rs, ds) := run_l ctor clk in (c2 + 1, rs, ds ++ [mkDl c2 base tab])
+      then let '(c2, rs, ds) := run_l ctor (clk + 1) in (c2, rs, ds ++ dl_msgs fixed stamp base tab deps)
+      else let '(c2, rs, ds) := run_l ctor clk in (c2 + 1, rs, ds ++ dl_msgs fixed c2 base tab deps)
   end.
 
-Fixpoint run_acts (early : bool) (l : list act) (c : Z) : rout :=
+Fixpoint run_acts (early fixed : bool) (outer : option Z) (l : list act) (c : Z) : rout :=
   match l with
   | [] => (c, [], [])
-  | y :: r => let '(c1, r1, d1) := run_act early y c in
-              let '(c2, r2, d2) := run_acts early r c1 in (c2, r1 ++ r2, d1 ++ d2)
+  | y :: r => let '(c1, r1, d1) := run_act early fixed outer y c in
+              let '(c2, r2, d2) := run_acts early fixed outer r c1 in (c2, r1 ++ r2, d1 ++ d2)
   end.
 
 (* the analysis side receives the DLOP messages in the order they were sent *)
